@@ -17,6 +17,8 @@
    - Gen_vineclip.v is generated (py2coq fragment E) from the four "correction of 0 or 1" lines of
      Tree.prepare_next_tree and from the sampler's `tmp = min(max(tmp, EPSILON), 0.99)`; the bridge
      lemmas below identify them with Model.VineData.clip_h / Spec.VineSampleR.clip_s;
+   - Gen_vinekernel.v is generated (tools/vf/vinegen.py) from Edge.get_conditional_uni and Edge._identify_eds_ing;
+     [C17_bridge_get_conditional_uni] proves the generated selection rule equal to Model.VineData.get_conditional_uni;
    - the real classes are traced (arrays tagged by content) and compared, by vm_compute, with
      [vine_data_of] (select_copula inputs, partial_derivative inputs, edge.U, get_tau_matrix columns),
      [likelihood_reads_of] / [vine_lik] (every uni_matrix cell read, the arguments of every density)
@@ -31,8 +33,9 @@ From Cop Require Import Lib.NumpyR Lib.FinGraph Model.Vine Model.VineData
      Spec.VineDefs Spec.VineSets Spec.VineSort Spec.VineCenter Spec.VineDirect Spec.VineRegular Spec.VinePairs Spec.VineValid
      Spec.VineDataProv Spec.VineDataChain Spec.VineDataFlags Spec.VineDataProofs
      Spec.VineLikProofs Spec.VineLikArgs Spec.VineDfs Spec.VineSampleProofs
-     Spec.VineClip Spec.VineSampleR Spec.VineDataIndex.
+     Spec.VineClip Spec.VineSampleR Spec.VineDataIndex Lib.PySet.
 From CopRun Require Import Gen_vineclip.
+From CopRun Require Import Gen_vinekernel.
 Import ListNotations.
 Open Scope nat_scope.
 
@@ -532,6 +535,39 @@ Example C17_nonvacuous_center :
 Proof. vm_compute. reflexivity. Qed.
 Example C17_nonvacuous_clip : (vc_clip_U0_q 0 == 1 # 8388608)%Q /\ (vc_clip_U1_q 1 == 1 - (1 # 8388608))%Q /\ (vc_clip_U0_q (1 # 3) == 1 # 3)%Q.
 Proof. vm_compute. repeat split; reflexivity. Qed.
+
+(* ================= Edge.get_conditional_uni GENERATED from the AST of tree.py equals the hand-written model =================
+   Gen_vinekernel.v (tools/vf/vinegen.py, regenerated on every run; denotations in coq/Lib/PySet.v).  The selection rule
+   `left_parent.U[0] if left_parent.L == left else left_parent.U[1]` (same for right) and the failure of
+   _identify_eds_ing are read off the source; the theorem holds for ALL inputs. *)
+Lemma C17_bridge_identify_eds_ing :
+  forall a b : edge, gen_identify_eds_ing a b = identify_eds_ing a b.
+Proof.
+  intros a b. unfold gen_identify_eds_ing, identify_eds_ing. cbv zeta.
+  match goal with
+  | |- match pyset_sorted ?s with _ => _ end = _ =>
+      replace (pyset_sorted s) with (set_symdiff (U a) (U b))
+  end.
+  2:{ symmetry. apply pyset_sorted_eq; [apply incr_set_symdiff|].
+      intros v. unfold U. autorewrite with pyset. simpl. tauto. }
+  match goal with
+  | |- context [pyset_and ?x ?y] =>
+      replace (pyset_and x y) with (set_inter (U a) (U b))
+  end.
+  2:{ symmetry. apply pyset_eq; [apply incr_pyset_and | apply incr_set_inter |].
+      intros v. unfold U. autorewrite with pyset. simpl. tauto. }
+  destruct (set_symdiff (U a) (U b)) as [|l [|r [|x t]]]; reflexivity.
+Qed.
+Print Assumptions C17_bridge_identify_eds_ing.
+
+Theorem C17_bridge_get_conditional_uni :
+  forall lp rp : edge_data, gen_get_conditional_uni lp rp = get_conditional_uni lp rp.
+Proof.
+  intros lp rp. unfold gen_get_conditional_uni, get_conditional_uni.
+  rewrite C17_bridge_identify_eds_ing.
+  destruct (identify_eds_ing (ed_edge lp) (ed_edge rp)) as [[[l r] d]|]; reflexivity.
+Qed.
+Print Assumptions C17_bridge_get_conditional_uni.
 
 Print Assumptions C17_edge_copula.
 Print Assumptions C17_vine_data_of_recorded.
